@@ -80,11 +80,24 @@ def run(ctx):
     N, nsteps = (1, 2) if ctx.tier == "quick" else (2, 3)
     fab = {"olivine": "olivine_A", "enstatite": "enstatite_AB"}
     p, q = alg.psym("phiA"), alg.psym("phiB")
-    configs = [(("olivine",), (p,)), (("enstatite",), (p,)), (("olivine", "enstatite"), (p, q)), (("enstatite", "olivine"), (q, p))]
+    configs = [(("olivine",), (p,), None), (("enstatite",), (p,), None), (("olivine", "enstatite"), (p, q), None), (("enstatite", "olivine"), (q, p), None),
+               # grains of exactly zero volume (consumed grains) at the head / in the middle of a snapshot: their weight is 0, every other
+               # grain keeps its own weight
+               (("olivine",), (p,), "zero-volume grains")]
     results = {}
-    for assemblage, fr in configs:
-        ms = [driver.make_mineral(I, ph, fab[ph], "matrix_dislocation", N, label=ph[:2], nsnap=nsteps, symbolic_n=False) for ph in assemblage]
-        tag = f"assemblage={assemblage}"
+    N0 = N
+    for assemblage, fr, variant in configs:
+        N = 3 if variant else N0
+        ms = [driver.make_mineral(I, ph, fab[ph], "matrix_dislocation", N, label=ph[:2] + ("z" if variant else ""), nsnap=nsteps, symbolic_n=False) for ph in assemblage]
+        if variant:
+            for m in ms:
+                for k, fsnap in enumerate(m.attrs["fractions"]):
+                    fsnap[(k + 1) % N] = ZERO
+        # the remaining volumes are strictly positive on this path (so that a `fractions > 0` selection is decidable)
+        for m in ms:
+            for fsnap in m.attrs["fractions"]:
+                I.facts_nonzero.extend(lift(x) for x in fsnap if lift(x) != ZERO)
+        tag = f"assemblage={assemblage}" + (f":{variant}" if variant else "")
         phs = [enum(I, "pydrex.core.MineralPhase", a) for a in assemblage]
         try:
             out = I.call(f, (ms, list(phs), list(fr), st))
@@ -95,6 +108,8 @@ def run(ctx):
         ident_arr(ctx, "C10.average", tag, out, ref, loc, what="averaged stiffness")
         if isinstance(out, np.ndarray) and out.shape == (nsteps, 6, 6):
             ident_arr(ctx, "C10.symmetric", tag, out, out.transpose(0, 2, 1), loc)
+        if variant:
+            continue
         results[assemblage] = (out, ms)
         if len(assemblage) == 2:
             try:
